@@ -1,4 +1,5 @@
 import NssVerif.Lemmas.CdfSample
+import NssVerif.Gen.Src.C04
 
 /-!
 # C04 — Tau energy sampling is the exact inverse transform of the propagation tables
@@ -197,5 +198,112 @@ theorem tau_energy_le_nu (t : CdfTable ℝ) (ht : CdfTableOK t) (b le u E : ℝ)
 
 /-! ### non-vacuity: the hypotheses are met by the shipped version-3 table at a concrete point -/
 example : 2 ≤ (cdf3 : CdfTable ℝ).frac.length := shipped_v3_ok.nZ
+
+/-! ### source tie: `Taus.tau_energy` and the chunk body of `grid_cdf_sampler(grid)` as translated from the Python source ARE the model
+
+`Gen/Src/C04.lean` is regenerated from `taus.py` / `utils/cdf.py` / `utils/interp.py` on every run (harness/pytrans.py,
+harness/srcspecs/C04.py).  scipy's `interpn`, the uniform draw and the sampler object are opaque: their results are inputs, and
+the translation exports the points at which they are asked.  The equalities hold for every `Scalar` instance. -/
+
+section SourceTie
+variable {α : Type} [Scalar α]
+open Scalar
+
+/-- the sampler is asked for the event's own (log_e_nu, beta, u) inside the table and for (log_e_nu, first node of the angle axis,
+u) below it -/
+theorem src_tauEnergy_queries (b le u zv zl : α) (ax : List α) :
+    ((Gen.Src.C04.tauEnergy b le u ax zv zl).zValidArg0, (Gen.Src.C04.tauEnergy b le u ax zv zl).zValidArg1,
+      (Gen.Src.C04.tauEnergy b le u ax zv zl).zValidArg2) = (le, b, u) ∧
+    ((Gen.Src.C04.tauEnergy b le u ax zv zl).zLowArg0, (Gen.Src.C04.tauEnergy b le u ax zv zl).zLowArg1,
+      (Gen.Src.C04.tauEnergy b le u ax zv zl).zLowArg2) = (le, ax.getD 0 0, u) := by exact ⟨rfl, rfl⟩
+
+/-- **`Taus.tau_energy` for one event equals the model's `tauEnergy`**: the model's result is the translated `ret` applied to
+whatever the sampler returns at the exported query point (and the error the sampler raises, if it raises); above the table the
+sampler is not consulted.  The guard excludes only an event that is at once below the first and above the last node of the angle
+axis (impossible on an increasing axis: `beta_min_lt_max`): there the source's last store (`beta_high`) wins while the model asks
+`beta_low` first.  Not `rfl` (three mask stores vs. a nested conditional): case split on the two comparisons. -/
+theorem src_tauEnergy (t : CdfTable α) (b le u : α)
+    (hex : ¬ (ltb b (t.beta.getD 0 0) = true ∧ ltb (t.beta.getD (t.beta.length - 1) 0) b = true)) :
+    tauEnergy t b le u =
+      (if ltb b (t.beta.getD 0 0) then cdfSample t le (t.beta.getD 0 0) u
+       else if ltb (t.beta.getD (t.beta.length - 1) 0) b then .ok 0
+       else cdfSample t le b u).map fun z => (Gen.Src.C04.tauEnergy b le u t.beta z z).ret := by
+  have e0 : (Scalar.ofNat 0 : α) = 0 := by rfl
+  unfold tauEnergy Gen.Src.C04.tauEnergy
+  simp only [e0]
+  cases hl : ltb b (t.beta.getD 0 0) <;> cases hh : ltb (t.beta.getD (t.beta.length - 1) 0) b
+  · simp [eps32]
+  · simp [eps32, Except.map]
+  · simp [eps32]
+  · exact absurd ⟨hl, hh⟩ hex
+
+/-- the same in the form used event by event: when the sampler returns `zv` (in the table) resp. `zl` (below it) at the exported
+query points, the tau energy is the translated `ret` -/
+theorem src_tauEnergy_ok (t : CdfTable α) (b le u zv zl : α)
+    (hex : ¬ (ltb b (t.beta.getD 0 0) = true ∧ ltb (t.beta.getD (t.beta.length - 1) 0) b = true))
+    (hv : ltb b (t.beta.getD 0 0) = false → ltb (t.beta.getD (t.beta.length - 1) 0) b = false → cdfSample t le b u = .ok zv)
+    (hl : ltb b (t.beta.getD 0 0) = true → cdfSample t le (t.beta.getD 0 0) u = .ok zl) :
+    tauEnergy t b le u = .ok (Gen.Src.C04.tauEnergy b le u t.beta zv zl).ret := by
+  rw [src_tauEnergy t b le u hex]
+  have e0 : (Scalar.ofNat 0 : α) = 0 := by rfl
+  unfold Gen.Src.C04.tauEnergy
+  simp only [e0]
+  cases hlo : ltb b (t.beta.getD 0 0) <;> cases hhi : ltb (t.beta.getD (t.beta.length - 1) 0) b
+  · rw [hv hlo hhi]; simp [Except.map]
+  · simp [Except.map]
+  · rw [hl hlo]; simp [Except.map]
+  · exact absurd ⟨hlo, hhi⟩ hex
+
+/-- the chunk body asks `interpn` for the CDF row at the event's own (log_e_nu, beta) -/
+theorem src_sampleChunk_query (le b u c y0 x0 y1 x1 : α) :
+    ((Gen.Src.C04.sampleChunk le b u c y0 x0 y1 x1).cdfRowArg0, (Gen.Src.C04.sampleChunk le b u c y0 x0 y1 x1).cdfRowArg1) = (le, b) := by rfl
+
+/-- **the chunk body of `grid_cdf_sampler(grid)(log_e_nu, beta, u)` for one event equals the model's `cdfSample`**: inside the table
+(scipy raises outside: `Err.outOfBounds`), when the two bracketing masks on the interpolated row each have exactly one `true`
+(positions `hi`, `lo`; otherwise the batch mis-aligns: `Err.misaligned`), the sampled fraction is the translated `ret` on the
+selected nodes of the fraction axis and of the row.  `c` (one entry of the interpolated row, the opaque `interpn` result) does not
+enter the value: the row is consulted through the selections only. -/
+theorem src_sampleChunk (t : CdfTable α) (le b u c : α) (hi lo : Nat)
+    (hin : (Model.Interp.outOfBounds t.logE le || Model.Interp.outOfBounds t.beta b) = false)
+    (hH : trueIdx (hiM (bilinearRow t.logE t.beta t.data le b) u) = [hi])
+    (hL : trueIdx (loM (bilinearRow t.logE t.beta t.data le b) u) = [lo]) :
+    cdfSample t le b u = .ok (Gen.Src.C04.sampleChunk le b u c
+      (t.frac.getD lo 0) ((bilinearRow t.logE t.beta t.data le b).getD lo 0)
+      (t.frac.getD hi 0) ((bilinearRow t.logE t.beta t.data le b).getD hi 0)).ret := by
+  unfold cdfSample vecInterp1
+  rw [hin, hH, hL]
+  rfl
+
+/-- with `u=None` the chunk draws its own numbers: the same function of the event's number `uDraw` of that draw -/
+theorem src_sampleChunkDraw (le b c uDraw y0 x0 y1 x1 : α) :
+    Gen.Src.C04.sampleChunkDraw le b c uDraw y0 x0 y1 x1 = ⟨le, b, (Gen.Src.C04.sampleChunk le b uDraw c y0 x0 y1 x1).ret⟩ := by rfl
+
+end SourceTie
+
+/-- over ℝ the hypotheses of `src_sampleChunk` are theorems: for every table meeting the sampler's preconditions, every energy and
+angle inside it and every `u` strictly inside the interpolated row's CDF range, the sampled fraction IS the translated chunk body on
+the nodes of the unique bracket `row[k] < u ≤ row[k+1]` -/
+theorem src_sampleChunk_real (t : CdfTable ℝ) (ht : CdfTableOK t) (le b u c : ℝ)
+    (hle : InRange t.logE le) (hb : InRange t.beta b)
+    (hu0 : 0 < u) (hu1 : ∀ y, (interpRow t le b).getLast? = some y → u ≤ y) :
+    ∃ k, k + 1 < t.frac.length ∧ (interpRow t le b).getD k 0 < u ∧ u ≤ (interpRow t le b).getD (k+1) 0 ∧
+      cdfSample t le b u = .ok (Gen.Src.C04.sampleChunk le b u c
+        (t.frac.getD (k+1) 0) ((interpRow t le b).getD (k+1) 0) (t.frac.getD k 0) ((interpRow t le b).getD k 0)).ret := by
+  have hc := cell_of_inRange ht le b hle hb
+  have hrow := interpRow_ok ht le b hc
+  have hlen := interpRow_length ht le b hc
+  have hfirst : (interpRow t le b).head hrow.nonempty < u := by
+    have := hrow.first
+    rw [List.head_eq_getElem]
+    rw [List.getElem?_eq_getElem (List.length_pos_iff.mpr hrow.nonempty)] at this
+    rw [Option.some.inj this]; exact hu0
+  obtain ⟨k, hk, c1, c2, hH, hL⟩ := masks_singleton (interpRow t le b) u hrow.mono hrow.nonempty hfirst
+    (hu1 _ (List.getLast?_eq_some_getLast hrow.nonempty))
+  refine ⟨k, by omega, ?_, ?_, ?_⟩
+  · rw [getD_eq _ _ (by omega)]; exact c1
+  · rw [getD_eq _ _ hk]; exact c2
+  · have h := src_sampleChunk t le b u c k (k+1)
+      (by rw [outOfBounds_false _ _ hle ht.nE, outOfBounds_false _ _ hb ht.nB]; rfl) hH hL
+    simpa only [interpRow, ofNat_eq, Nat.cast_ofNat, Nat.cast_zero] using h
 
 end C04
